@@ -63,13 +63,16 @@ pub async fn on_notification_handler(
     server_context: &mut ServerContext,
 ) -> Result<(), Box<dyn Error + Sync + Send>> {
     dispatch_notification!(notification, server_context, {
+        // Notifications that change what a document is analysed with are handled in message
+        // order: a spawned didOpen/didClose could run after a later didChange and leave the
+        // analysis on the older text.
         sync: {
+            DidOpenTextDocument => on_did_open_text_document,
             DidChangeTextDocument => on_did_change_text_document,
+            DidCloseTextDocument => on_did_close_document,
         }
         async: {
-            DidOpenTextDocument => on_did_open_text_document,
             DidSaveTextDocument => on_did_save_text_document,
-            DidCloseTextDocument => on_did_close_document,
             DidChangeWatchedFiles => on_did_change_watched_files,
             SetTrace => on_set_trace,
             DidChangeConfiguration => on_did_change_configuration,
